@@ -7,7 +7,7 @@ from typing import Any, Dict, List
 
 from ..core import fde
 from ..core.classworld import ClassWorld
-from ..core.fde import Obj, Raised, Tag, Undecided
+from ..core.fde import IndexOutOfRange, Obj, Raised, Tag, Undecided
 from ..core.findings import Report
 from ..core.loader import AnalysisError, Repo, dotted, norm, qualname, short
 from .solverworld import solver_self, solver_world
@@ -405,3 +405,59 @@ def check_tree_immutability(repo: Repo, rep: Report) -> None:
         raise AnalysisError("VID-4: the construction stores of Expr.__init__ were not found")
     if not any(f.rule == "VID-4" for f in rep.findings):
         rep.ok("VID-4", f"{n} sites touching op/operands: only Expr.__init__ stores them; no in-place mutation anywhere in cspuz/")
+
+
+def check_posting(repo: Repo, rep: Report) -> None:
+    """VID-5: Solver.ensure and Solver.add_answer_key take any nesting of iterables, one-shot ones (generator expressions, map, zip)
+    included: every item is posted / registered exactly once, in order; a rejected item raises TypeError."""
+    from ..core.classworld import ClassWorld
+    from ..core.fde import OneShot
+
+    rep.rule("VID-5", "ensure / add_answer_key keep every item of every nesting of lists, tuples and one-shot iterables (generators), once and in order")
+    smod, cmod = repo.mod(SOLVER_FILE), repo.mod("cspuz/constraints.py")
+    rep.saw(SOLVER_FILE, "Solver.ensure")
+
+    def bexpr(name: str) -> Obj:
+        return Obj(["BoolExpr", "Expr"], op=Tag("Op.VAR"), operands=[], name=name)
+
+    shapes = [
+        ("three separate arguments", lambda c: (c[0], c[1], c[2])),
+        ("a list", lambda c: ([c[0], c[1], c[2]],)),
+        ("a generator expression", lambda c: (OneShot([c[0], c[1], c[2]]),)),
+        ("a generator inside a list", lambda c: ([c[0], OneShot([c[1], c[2]])],)),
+        ("a list inside a generator", lambda c: (OneShot([[c[0], c[1]], c[2]]),)),
+        ("a map object and a literal", lambda c: (OneShot([c[0], c[1]]), True, c[2])),
+    ]
+    try:
+        for label, mk in shapes:
+            cw = ClassWorld([smod, cmod], pre_env={"warnings": Tag("warnings"), "config": Tag("config"), "backend": Tag("backend"), "Op": Tag("Op")})
+            s = cw.new("Solver")
+            cs = [bexpr(f"c{i}") for i in range(3)]
+            args = mk(cs)
+            want = [x for x in cs] if "literal" not in label else [cs[0], cs[1], True, cs[2]]
+            cw.ev.steps = 0
+            cw.method(s, "ensure")(*args)
+            got = s.attrs.get("constraints")
+            if not (isinstance(got, list) and len(got) == len(want) and all(a is b or (a is True and b is True) for a, b in zip(got, want))):
+                rep.finding("VID-5", SOLVER_FILE, "Solver.ensure", "ensure keeps every constraint",
+                            f"ensure() given {label} keeps {len(got) if isinstance(got, list) else got!r} of {len(want)} constraints "
+                            f"({[getattr(x, 'attrs', {}).get('name', x) for x in (got or [])]}): the rest never reach the backend",
+                            smod.func("Solver.ensure").lineno)
+                return
+        # add_answer_key
+        for label, mk in shapes[:5]:
+            cw = ClassWorld([smod, cmod, repo.mod("cspuz/expr.py")], pre_env={"warnings": Tag("warnings"), "config": Tag("config"), "backend": Tag("backend"), "Op": Tag("Op")})
+            s = cw.new("Solver")
+            vs = [cw.method(s, "bool_var")() for _ in range(4)]
+            cw.ev.steps = 0
+            cw.method(s, "add_answer_key")(*mk(vs[:3]))
+            keys = s.attrs.get("is_answer_key")
+            if keys != [True, True, True, False]:
+                rep.finding("VID-5", SOLVER_FILE, "Solver.add_answer_key", "add_answer_key registers every variable",
+                            f"add_answer_key() given {label} of variables #0..#2 leaves is_answer_key = {keys!r}", smod.func("Solver.add_answer_key").lineno)
+                return
+        rep.ok("VID-5", f"ensure / add_answer_key: {len(shapes)} nestings incl. one-shot iterables keep every item once, in order")
+    except (Undecided, IndexOutOfRange) as ex:
+        rep.undecide("VID-5", str(ex))
+    except Raised as ex:
+        rep.finding("VID-5", SOLVER_FILE, "Solver.ensure", "ensure raises", f"posting well-typed constraints raises {ex.what}")
